@@ -495,10 +495,19 @@ func strEqual(x, y Str) string {
 	if y.Len == "0" {
 		return sEq(x.Len, "0")
 	}
-	qvCounter++
-	q := fmt.Sprintf("q!%d", qvCounter)
-	return fmt.Sprintf("(and (= %s %s) (forall ((%s Int)) (=> (and (<= 0 %s) (< %s %s)) (= (select %s (+ %s %s)) (select %s (+ %s %s))))))",
-		x.Len, y.Len, q, q, q, x.Len, x.Base, x.Off, q, y.Base, y.Off, q)
+	// Content equality of two differently represented strings is the
+	// uninterpreted predicate streq (made symmetric by ordering its arguments),
+	// constrained by: equal strings have equal lengths and equal first bytes.
+	// The program and the contracts use the same predicate, so every
+	// conclusion holds for the real interpretation in particular.
+	a := x.Base + " " + x.Off + " " + x.Len
+	b := y.Base + " " + y.Off + " " + y.Len
+	if b < a {
+		a, b = b, a
+		x, y = y, x
+	}
+	p := "(streq " + a + " " + b + ")"
+	return "(and " + p + " (= " + x.Len + " " + y.Len + ") (=> (> " + x.Len + " 0) (= (select " + x.Base + " " + x.Off + ") (select " + y.Base + " " + y.Off + "))))"
 }
 
 // iteVal merges two values of identical shape.
